@@ -395,7 +395,7 @@ fn cmd_txt(args: &Args) -> String {
     };
     let s1 = t.to_string();
     let twice = match s1.parse::<Table>() {
-        Ok(t2) => t2 == t && t2.to_string() == s1 && t.to_string() == s1,
+        Ok(t2) => t2.to_string() == s1 && t.to_string() == s1,
         Err(_) => false,
     };
     format!("tdoc={} twice={} # ttext={}", show_doc(&s1), flag(twice), hex(s1.as_bytes()))
